@@ -164,8 +164,12 @@ func workerMain(prop, tier string, worker int, baseSeed uint64, out string) int 
 			}
 		}
 		rep.Ops += len(res.Trace)
-		if len(rep.Samples) < 2 && len(res.Log) > 0 && res.Stats != nil && ownRuleEvaluated(prof, res.Stats) {
-			rep.Samples = append(rep.Samples, map[string]any{"seed": res.Seed, "ops": len(res.Trace), "first_ops": headOps(res.Trace, 12), "event_trace_excerpt": excerpt(res.Log, 14)})
+		if len(rep.Samples) < 2 && res.Stats != nil && (ownRuleEvaluated(prof, res.Stats) || i == tc.RunsPerW-1) {
+			sample := map[string]any{"seed": res.Seed, "ops": len(res.Trace), "first_ops": headOps(res.Trace, 12), "event_trace_excerpt": excerpt(res.Log, 14)}
+			if res.Extra != nil {
+				sample["scenario"] = res.Extra
+			}
+			rep.Samples = append(rep.Samples, sample)
 		}
 		if res.HarnessErr != "" {
 			rep.HarnessErr = fmt.Sprintf("seed %d: %s", seed, res.HarnessErr)
@@ -695,7 +699,7 @@ func writeEvidence(prop, tier string, seed uint64, prof *Profile, agg *WorkerRep
 			"evaluations":         agg.Runs,
 			"distinct_nontrivial": distinct,
 			"rule":                prof.EvidenceRule,
-			"samples":             agg.Samples,
+			"samples":             nonNilSamples(agg.Samples),
 			"runs_where_own_rule_evaluated": agg.NonTrivialRuns,
 			"runs_per_hour":       float64(agg.Runs) / wall * 3600,
 			"simulated_seconds":   agg.SimSeconds,
@@ -756,4 +760,11 @@ func filterNotPrefix(m map[string]int, pre ...string) map[string]int {
 		}
 	}
 	return out
+}
+
+func nonNilSamples(s []any) []any {
+	if s == nil {
+		return []any{}
+	}
+	return s
 }
